@@ -71,3 +71,9 @@ VARIANTS += [
         (PT, "np.zeros(pointcloud.shape[0], dtype=np.uint8)", "np.zeros(pointcloud.shape[0], dtype=np.int16)"),
         (PT, "xy_idx: np.ndarray = 0 < cnt_arr_ if inside else cnt_arr_ <= 0", "xy_idx: np.ndarray = cnt_arr_ != 0 if inside else cnt_arr_ == 0")]),
 ]
+
+VARIANTS += [
+    dict(name="seed2-empty-cloud-skips-classification", kind="break", rule="C12-classify", edits=[("evaluation/sensing/sensing_frame_result.py",
+        "        if len(ground_truth_objects) == 0:\n            logging.warn(\"There is no annotated objects\")\n            return",
+        "        if len(ground_truth_objects) == 0 or len(pointcloud_for_detection) == 0:\n            logging.warn(\"There is no annotated objects\")\n            return")]),
+]
